@@ -1,6 +1,7 @@
 import DashLive.Lemmas.Evolve
 import DashLive.Props.C01
 import DashLive.Props.C08
+import DashLive.Model.Patch
 /-!
 # C09 – successive manifests and MPD patches evolve consistently
 
@@ -265,63 +266,24 @@ end Roundtrip
 
 /-! ### MPD patches -/
 
-/-- the parts of a live manifest a patch replaces -/
-structure Doc where
-  mpdId : String
-  publishTime : Int                         -- µs since the epoch
-  patchLocation : String
-  timelines : List ((String × String) × List SNode)   -- (period id, adaptation set id) ↦ timeline
-  deriving DecidableEq
-
-/-- a patch document: ids + the three kinds of `replace` operation of templates/patches/hand_made.xml -/
-structure Patch where
-  mpdId : String
-  originalPublishTime : Int
-  publishTime : Int
-  newPublishTime : Int
-  newPatchLocation : String
-  newTimelines : List ((String × String) × List SNode)
-  deriving DecidableEq
-
-/-- `ServePatch.get` at clock T₂ for the publish time carried by the PatchLocation URL:
-`int(publishTime.timestamp())` seconds, turned back into an instant -/
-def servePatch (docNow : Doc) (publishSeconds : Int) : Patch :=
-  { mpdId := docNow.mpdId
-    originalPublishTime := publishSeconds * 1000000
-    publishTime := docNow.publishTime
-    newPublishTime := docNow.publishTime
-    newPatchLocation := docNow.patchLocation
-    newTimelines := docNow.timelines }
-
-/-- RFC 5261-style application of the patch's `replace` operations -/
-def applyPatch (p : Patch) (d : Doc) : Doc :=
-  { d with
-    publishTime := p.newPublishTime
-    patchLocation := p.newPatchLocation
-    timelines := d.timelines.map fun kv =>
-      match p.newTimelines.lookup kv.1 with
-      | some tl => (kv.1, tl)
-      | none => kv }
-
-/-- seconds carried by the PatchLocation URL (manifest_context.py:121) -/
-def publishSeconds (d : Doc) : Int := d.publishTime / 1000000
-
 theorem lookup_self_map (l : List ((String × String) × List SNode)) (hnd : (l.map (·.1)).Nodup) :
-    l.map (fun kv => match l.lookup kv.1 with | some tl => (kv.1, tl) | none => kv) = l := by
+    l.map (replaceTl l) = l := by
   induction l with
   | nil => rfl
   | cons x xs ih =>
     simp only [List.map_cons, List.nodup_cons] at hnd
-    have htail : xs.map (fun kv => match (x :: xs).lookup kv.1 with | some tl => (kv.1, tl) | none => kv)
-        = xs.map (fun kv => match xs.lookup kv.1 with | some tl => (kv.1, tl) | none => kv) := by
+    have htail : xs.map (replaceTl (x :: xs))
+        = xs.map (replaceTl xs) := by
       apply List.map_congr_left
       intro kv hkv
       have hne : kv.1 ≠ x.1 := by
         intro h; apply hnd.1; rw [← h]; exact List.mem_map_of_mem hkv
       have hb : (kv.1 == x.1) = false := by simpa using hne
+      unfold replaceTl
       rw [List.lookup_cons, hb]
     simp only [List.map_cons, htail, ih hnd.2]
     have hx : (x :: xs).lookup x.1 = some x.2 := by rw [List.lookup_cons]; simp
+    unfold replaceTl
     rw [hx]
 
 /-- **Patch ≡ full manifest.**  Fetching the PatchLocation of the T₁ manifest at T₂ and
@@ -345,8 +307,8 @@ theorem C09_patch_equiv (d₁ d₂ : Doc) (hid : d₁.mpdId = d₂.mpdId)
   -- d₁'s entries have d₂'s keys in the same order, so the map sends them to d₂'s entries
   have hmap : ∀ (l₁ l₂ : List ((String × String) × List SNode)), l₁.map (·.1) = l₂.map (·.1) →
       (∀ kv ∈ l₂, (d₂.timelines.lookup kv.1).isSome) →
-      l₁.map (fun kv => match d₂.timelines.lookup kv.1 with | some tl => (kv.1, tl) | none => kv)
-      = l₂.map (fun kv => match d₂.timelines.lookup kv.1 with | some tl => (kv.1, tl) | none => kv) := by
+      l₁.map (replaceTl d₂.timelines)
+      = l₂.map (replaceTl d₂.timelines) := by
     intro l₁
     induction l₁ with
     | nil => intro l₂ h _; cases l₂ <;> simp_all
@@ -358,7 +320,10 @@ theorem C09_patch_equiv (d₁ d₂ : Doc) (hid : d₁.mpdId = d₂.mpdId)
         simp only [List.map_cons, List.cons.injEq] at h
         have hb := hs b List.mem_cons_self
         simp only [List.map_cons]
-        rw [ih bs h.2 (fun kv hkv => hs kv (List.mem_cons_of_mem _ hkv)), h.1]
+        rw [ih bs h.2 (fun kv hkv => hs kv (List.mem_cons_of_mem _ hkv))]
+        congr 1
+        unfold replaceTl
+        rw [h.1]
         cases hl : d₂.timelines.lookup b.1 with
         | none => rw [hl] at hb; simp at hb
         | some tl => rfl
